@@ -24,6 +24,7 @@ type Case struct {
 	Node    int    `json:"node"`
 	Op      string `json:"op,omitempty"`
 	Src     string `json:"src,omitempty"`
+	Early   *earlyCase `json:"early_freeze_case,omitempty"`
 }
 
 type finding struct {
@@ -139,6 +140,10 @@ func execGraph(g *Graph, outcome string, st *counters) (r *modRun, harnessErr st
 		"struct": starlark.NewBuiltin("struct", starlarkstruct.Make),
 		"json":   json.Module,
 		"hostv":  r.hostv,
+		"hostfreeze": starlark.NewBuiltin("hostfreeze", func(th *starlark.Thread, _ *starlark.Builtin, args starlark.Tuple, _ []starlark.Tuple) (starlark.Value, error) {
+			args[0].Freeze() // what a host does before handing a value to another thread
+			return starlark.None, nil
+		}),
 		"stash": starlark.NewBuiltin("stash", func(th *starlark.Thread, _ *starlark.Builtin, args starlark.Tuple, _ []starlark.Tuple) (starlark.Value, error) {
 			i, _ := starlark.AsInt32(args[0])
 			r.nodes[i] = args[1]
@@ -682,9 +687,6 @@ func (r *modRun) checkAll(onlyNode int, onlyOp string) *finding {
 		if id := identityOf(v); id != nil && api[id] != r.reach[i] {
 			return &finding{"harness", i, "", fmt.Sprintf("node %d: reachable through the Go API = %v, in the generated graph = %v", i, api[id], r.reach[i])}
 		}
-		if _, fr, ok := starlark.VerifIterCount(v); ok && fr != r.reach[i] {
-			return &finding{"frozen-flag", i, "", fmt.Sprintf("node %d (%s): frozen flag = %v but reachable from globals = %v", i, r.g.Nodes[i].Kind, fr, r.reach[i])}
-		}
 	}
 	// frozen nodes first, then the unreachable ones (whose mutation succeeds)
 	order := make([]int, 0, len(r.nodes))
@@ -721,6 +723,16 @@ func (r *modRun) checkAll(onlyNode int, onlyOp string) *finding {
 	}
 	if onlyNode >= 0 {
 		return nil
+	}
+	// The private frozen flag must agree with reachability. It is looked at
+	// only after the behavioural checks above (which find an unfrozen reachable
+	// value through a mutator that succeeds, and a frozen unreachable one
+	// through a mutator that fails), so that what is reported is behaviour
+	// wherever behaviour shows it.
+	for i, v := range r.nodes {
+		if _, fr, ok := starlark.VerifIterCount(v); ok && fr != r.reach[i] {
+			return &finding{"frozen-flag", i, "", fmt.Sprintf("node %d (%s): frozen flag = %v but reachable from globals = %v", i, r.g.Nodes[i].Kind, fr, r.reach[i])}
+		}
 	}
 	// a value created after the module finished is mutable
 	before := r.frozenSer()
